@@ -6,7 +6,7 @@
 
 use crate::value::Value;
 use serde::{Deserialize, Serialize};
-use std::collections::HashMap;
+use std::collections::{HashMap, HashSet};
 
 // --- Custom serialization for Value as plain JSON ---
 // Value's default serde is a tagged enum ({"type":"String","value":"x"}).
@@ -519,6 +519,9 @@ pub struct ProofTreeBuilder {
     nodes: HashMap<NodeId, ProofNode>,
     /// Dedup key: (relation, values) -> existing node ID
     seen: HashMap<(String, Vec<Value>), NodeId>,
+    /// Nodes that do not fully explain their conclusion (truncated at the depth
+    /// limit, or a step resting on such a node). They are never memoized.
+    incomplete: HashSet<NodeId>,
     next_id: usize,
 }
 
@@ -528,8 +531,19 @@ impl ProofTreeBuilder {
         Self {
             nodes: HashMap::new(),
             seen: HashMap::new(),
+            incomplete: HashSet::new(),
             next_id: 0,
         }
+    }
+
+    /// Record that a node does not fully explain its conclusion.
+    pub fn mark_incomplete(&mut self, id: &NodeId) {
+        self.incomplete.insert(id.clone());
+    }
+
+    /// Whether a node was recorded as not fully explaining its conclusion.
+    pub fn is_incomplete(&self, id: &NodeId) -> bool {
+        self.incomplete.contains(id)
     }
 
     /// Allocate a fresh node ID.
